@@ -573,20 +573,31 @@ def probes(ctx, real):
             ctx.count("probe_rejected_by_engine")
         except Exception as e:  # noqa
             ctx.reject({"template": src}, f"{what}: unexpected {type(e).__name__}", "macro-binding: " + what)
-    # keywords that collide with the engine's internal call protocol (inside the quantifier: "unknown names")
+    # keywords that collide with the engine's internal call protocol (inside the quantifier: "unknown names").
+    # Given explicitly they must bind (kwargs / TypeError) or be rejected as a template error; through ** they
+    # still reach Context.call, which strips them (known finding).
     for kwname in ("_loop_vars", "_block_vars"):
-        for call in ("{{ m(%s=3) }}" % kwname, "{{ m(**{'%s': 3}) }}" % kwname):
-            src = "{% macro m() %}{{ kwargs|show }}{% endmacro %}" + call
-            n += 1
-            try:
-                out = env.from_string(src).render()
-            except Exception as e:  # noqa
-                out = "raised " + type(e).__name__
-            if out != "{%s=i3}" % kwname:
-                ctx.reject({"template": src}, f"unconsumed keyword {kwname} must reach kwargs (or be a TypeError); engine gives {out!r}",
-                           "macro-binding: keyword _loop_vars/_block_vars swallowed by Context.call")
-            else:
-                ctx.count("probe_internal_keyword_ok")
+        for macro, want_bind in (("{% macro m() %}{{ kwargs|show }}{% endmacro %}", "{%s=i3}" % kwname),
+                                 ("{% macro m() %}x{% endmacro %}", "TypeError")):
+            for explicit in (True, False):
+                call = ("{{ m(%s=3) }}" % kwname) if explicit else ("{{ m(**{'%s': 3}) }}" % kwname)
+                src = macro + call
+                n += 1
+                try:
+                    out = env.from_string(src).render()
+                except jinja2.TemplateSyntaxError:
+                    out = "TemplateSyntaxError"
+                except TypeError:
+                    out = "TypeError"
+                except Exception as e:  # noqa
+                    out = "raised " + type(e).__name__
+                if out == want_bind or (explicit and out == "TemplateSyntaxError"):
+                    ctx.count("probe_internal_keyword_ok")
+                else:
+                    ctx.reject({"template": src}, f"unconsumed keyword {kwname} must reach kwargs or be a TypeError (as it is when the "
+                               f"macro is called from Python); engine gives {out!r}",
+                               "macro-binding: explicit keyword _loop_vars/_block_vars swallowed by Context.call" if explicit else
+                               "macro-binding: keyword _loop_vars/_block_vars swallowed by Context.call")
     return n
 
 
